@@ -297,7 +297,7 @@ impl<'s, K: Kind<X>, X: Item> VecExec<'s, K, X> {
 
     fn all_dropped(&self, ids: impl Iterator<Item = u32>) -> Option<u32> {
         for id in ids {
-            if tok::state_of(id) != Some(St::Dropped) {
+            if !tok::gone(id) {
                 return Some(id);
             }
         }
@@ -310,7 +310,7 @@ impl<'s, K: Kind<X>, X: Item> VecExec<'s, K, X> {
     fn settle_doomed(&mut self, grps: &[Grp], fired: bool, what: &str) {
         for g in grps {
             for id in g.iter() {
-                match tok::state_of(id) {
+                match if tok::gone(id) { Some(St::Dropped) } else { tok::state_of(id) } {
                     Some(St::Dropped) => {}
                     Some(St::Live) => {
                         if fired {
@@ -357,7 +357,8 @@ impl<'s, K: Kind<X>, X: Item> VecExec<'s, K, X> {
         for (idx, g) in doomed.iter().enumerate() {
             if idx < popped {
                 for id in g.iter() {
-                    match tok::state_of(id) {
+                    let bagged = tok::state_of(id) == Some(St::Live) && tok::owner_of(id) == OWN_BAG;
+                    match if !bagged && tok::gone(id) { Some(St::Dropped) } else { tok::state_of(id) } {
                         Some(St::Dropped) => {}
                         Some(St::Live) if tok::owner_of(id) == OWN_BAG => {}
                         Some(St::Live) => {
@@ -525,7 +526,7 @@ impl<'s, K: Kind<X>, X: Item> VecExec<'s, K, X> {
         if let Some((it, dq)) = self.inner.take() {
             let _ = guard_nopanic("drop of the inner iterator", m(OWN_INNER), 0, move || drop(it));
             for id in dq {
-                if tok::state_of(id) != Some(St::Dropped) {
+                if !tok::gone(id) {
                     tok::raise(V7_LEAK, format!("drop of the inner iterator: id {} was neither yielded nor dropped", id));
                     return;
                 }
@@ -606,7 +607,7 @@ impl<'s, K: Kind<X>, X: Item> VecExec<'s, K, X> {
         }
         // remaining fresh ids (overwritten defaults) must be gone
         for id in tok::fresh_in_op() {
-            if tok::owner_of(id) == OWN_FRESH && tok::state_of(id) != Some(St::Dropped) {
+            if tok::owner_of(id) == OWN_FRESH && !tok::gone(id) {
                 tok::raise(V7_LEAK, format!("{}: default element id {} was overwritten but never dropped", what, id));
                 std::mem::forget(v);
                 return;
@@ -622,14 +623,14 @@ impl<'s, K: Kind<X>, X: Item> VecExec<'s, K, X> {
     /// Post-condition after an unwinding `from_iter`/`default`: nothing it created or pulled survives.
     fn settle_unwound(&mut self, pulled: &[Grp], what: &str) {
         for id in tok::fresh_in_op() {
-            if tok::state_of(id) != Some(St::Dropped) {
+            if !tok::gone(id) {
                 tok::raise(V7_LEAK, format!("{} unwound: default element id {} leaked", what, id));
                 return;
             }
         }
         for g in pulled {
             for id in g.iter() {
-                if tok::state_of(id) != Some(St::Dropped) {
+                if !tok::gone(id) {
                     tok::raise(V7_LEAK, format!("{} unwound: pulled element id {} leaked", what, id));
                     return;
                 }
@@ -1059,6 +1060,64 @@ impl<'s, K: Kind<X>, X: Item> VecExec<'s, K, X> {
                     }
                     Err(t) => self.unexpected(what, t),
                 }
+                true
+            }
+            VClone => {
+                let v = match &self.form {
+                    Form::V(v) => v,
+                    _ => return false,
+                };
+                self.st.probes[P_CONTAINER_CLONE] += 1;
+                if op.f > 0 {
+                    self.st.fault_cfg[F_OBSERVE_PANIC] += 1;
+                }
+                // clone() touches the originals and creates fresh elements; if an element's clone
+                // panics, the fresh ones made so far are destroyed by the unwinding
+                let (r, fired) = guard(m(OWN_FRESH), m(OWN_MAIN), plan_of(Cb::Observe, op.f), || K::v_clone(v));
+                let fresh = tok::fresh_in_op();
+                match r {
+                    Ok(c) => {
+                        let mut ok = fresh.len() == n * X::W;
+                        let mut k = 0usize;
+                        for i in 0..n {
+                            let g = K::v_field(&c, i).grp();
+                            for (j, id) in g.iter().enumerate() {
+                                let src = self.model[i].ids[j];
+                                if fresh.get(k) .is_none() || !fresh.contains(&id) || tok::origin_of(id) != Some(Origin::Clone) || tok::val_of(id) != tok::val_of(src) {
+                                    ok = false;
+                                }
+                                k += 1;
+                            }
+                        }
+                        if !ok {
+                            tok::raise(V5_ORDER, format!("clone of a {}: the copy does not consist of one fresh clone per element, in order ({} fresh elements)", K::NAME, fresh.len()));
+                            std::mem::forget(c);
+                            return true;
+                        }
+                        for id in &fresh {
+                            tok::set_owner(*id, OWN_CLONE);
+                        }
+                        let _ = guard_nopanic("drop of the cloned container", m(OWN_CLONE), 0, move || drop(c));
+                        for id in &fresh {
+                            if !tok::gone(*id) {
+                                tok::raise(V7_LEAK, format!("drop of a cloned {}: id {} was not dropped", K::NAME, id));
+                                return true;
+                            }
+                        }
+                    }
+                    Err(Thrown::Injected) if fired => {
+                        self.st.fault_fired[F_OBSERVE_PANIC] += 1;
+                        self.st.probes[P_CLONE_PANIC_FIRED] += 1;
+                        for id in &fresh {
+                            if !tok::gone(*id) {
+                                tok::raise(V7_LEAK, format!("clone of a {} unwound: fresh element id {} leaked", K::NAME, id));
+                                return true;
+                            }
+                        }
+                    }
+                    Err(t) => self.unexpected("clone of a vector", t),
+                }
+                self.check_form("clone");
                 true
             }
             VFromSlice => {
